@@ -96,15 +96,30 @@ theorem getEntry_some {s : Pool} {id : Nat} {e : Entry} (h : getEntry s id = som
 
 /-! ### remove_entry -/
 
+@[simp] theorem rebuild_inputs (s : Pool) (ids : List Nat) : (rebuild s ids).inputs = s.inputs := rfl
+@[simp] theorem rebuild_links (s : Pool) (ids : List Nat) : (rebuild s ids).links = s.links := rfl
+
+theorem rebuild_txs (s : Pool) (ids : List Nat) : txs (rebuild s ids) = txs s := by
+  simp only [txs, rebuild, List.map_map]
+  congr 1; funext e; simp only [Function.comp]; split <;> rfl
+
 theorem removeEntry_txs (s : Pool) (id : Nat) (e : Entry) (h : getEntry s id = some e) :
     txs (removeEntry s id).1 = (txs s).filter (·.id ≠ id) ∧
     (removeEntry s id).1.inputs = s.inputs.filter (fun kv => kv.1 ∉ e.tx.inputs) := by
-  unfold removeEntry
-  rw [h]
-  simp only [txs, track_entries, track_inputs, removeEdges]
-  refine ⟨?_, trivial⟩
-  rw [modEntries_txs _ _ (by simp), modEntries_txs _ _ (by simp)]
-  simp [List.filter_map, Function.comp_def]
+  by_cases hc : (isBetween s.links id && s.cfg.fixMid) = true
+  · refine ⟨?_, by simp [removeEntry, h, hc, removeEdges]⟩
+    simp only [removeEntry, h, hc, if_true, removeEdges]
+    show List.map _ (track (rebuild _ _) _ _).entries = _
+    rw [track_entries]
+    have := rebuild_txs
+    simp only [txs] at this
+    rw [this]
+    simp [txs, List.filter_map, Function.comp_def]
+  · refine ⟨?_, by simp [removeEntry, h, hc, removeEdges]⟩
+    simp only [removeEntry, h, hc, removeEdges, txs, track_entries]
+    simp only [Bool.false_eq_true, if_false]
+    rw [modEntries_txs _ _ (by simp), modEntries_txs _ _ (by simp)]
+    simp [List.filter_map, Function.comp_def]
 
 theorem removeEntry_none (s : Pool) (id : Nat) (h : getEntry s id = none) : (removeEntry s id).1 = s := by
   unfold removeEntry; rw [h]
@@ -414,9 +429,11 @@ theorem recordDescendants_txs (s : Pool) (e : Entry) :
   simp only
   split
   · exact ⟨by simp only [txs]; exact modEntries_txs _ _ (by simp) _, rfl⟩
-  · refine ⟨?_, rfl⟩
-    simp only [txs]
-    rw [modEntries_txs _ _ (by simp), modEntries_txs _ _ (by simp)]
+  · split
+    · exact ⟨rebuild_txs _ _, rfl⟩
+    · refine ⟨?_, rfl⟩
+      simp only [txs]
+      rw [modEntries_txs _ _ (by simp), modEntries_txs _ _ (by simp)]
 
 theorem inputsOK_addEntry {s : Pool} (h : InputsOK s) (t : Tx) (st : Status) (ts : Nat) :
     InputsOK (addEntry s t st ts).1 := by
@@ -544,5 +561,102 @@ theorem inputsOK_submit {s : Pool} (h : InputsOK s) (t : Tx) (st : Status) (ts :
     · rename_i s2 r _ heq
       rw [heq] at h2
       exact h2
+
+/-! ### more projections (used by the later parts) -/
+
+@[simp] theorem track_cfg (s : Pool) (a b : Option Status) : (track s a b).cfg = s.cfg := by
+  unfold track; cases a with
+  | none => cases b with
+    | none => rfl
+    | some y => cases y <;> rfl
+  | some x => cases x <;> (cases b with
+    | none => rfl
+    | some y => cases y <;> rfl)
+
+@[simp] theorem track_chain (s : Pool) (a b : Option Status) : (track s a b).chain = s.chain := by
+  unfold track; cases a with
+  | none => cases b with
+    | none => rfl
+    | some y => cases y <;> rfl
+  | some x => cases x <;> (cases b with
+    | none => rfl
+    | some y => cases y <;> rfl)
+
+@[simp] theorem track_links (s : Pool) (a b : Option Status) : (track s a b).links = s.links := by
+  unfold track; cases a with
+  | none => cases b with
+    | none => rfl
+    | some y => cases y <;> rfl
+  | some x => cases x <;> (cases b with
+    | none => rfl
+    | some y => cases y <;> rfl)
+
+@[simp] theorem track_deps (s : Pool) (a b : Option Status) : (track s a b).deps = s.deps := by
+  unfold track; cases a with
+  | none => cases b with
+    | none => rfl
+    | some y => cases y <;> rfl
+  | some x => cases x <;> (cases b with
+    | none => rfl
+    | some y => cases y <;> rfl)
+
+@[simp] theorem track_hdeps (s : Pool) (a b : Option Status) : (track s a b).hdeps = s.hdeps := by
+  unfold track; cases a with
+  | none => cases b with
+    | none => rfl
+    | some y => cases y <;> rfl
+  | some x => cases x <;> (cases b with
+    | none => rfl
+    | some y => cases y <;> rfl)
+
+@[simp] theorem track_ghostBad (s : Pool) (a b : Option Status) : (track s a b).ghostBad = s.ghostBad := by
+  unfold track; cases a with
+  | none => cases b with
+    | none => rfl
+    | some y => cases y <;> rfl
+  | some x => cases x <;> (cases b with
+    | none => rfl
+    | some y => cases y <;> rfl)
+
+@[simp] theorem track_totalSize (s : Pool) (a b : Option Status) : (track s a b).totalSize = s.totalSize := by
+  unfold track; cases a with
+  | none => cases b with
+    | none => rfl
+    | some y => cases y <;> rfl
+  | some x => cases x <;> (cases b with
+    | none => rfl
+    | some y => cases y <;> rfl)
+
+@[simp] theorem track_totalCycles (s : Pool) (a b : Option Status) : (track s a b).totalCycles = s.totalCycles := by
+  unfold track; cases a with
+  | none => cases b with
+    | none => rfl
+    | some y => cases y <;> rfl
+  | some x => cases x <;> (cases b with
+    | none => rfl
+    | some y => cases y <;> rfl)
+
+@[simp] theorem rebuild_cfg (s : Pool) (ids : List Nat) : (rebuild s ids).cfg = s.cfg := rfl
+@[simp] theorem rebuild_ghostBad (s : Pool) (ids : List Nat) : (rebuild s ids).ghostBad = s.ghostBad := rfl
+
+theorem removeEntry_cfg (s : Pool) (id : Nat) : (removeEntry s id).1.cfg = s.cfg := by
+  cases h : getEntry s id with
+  | none => rw [removeEntry_none s id h]
+  | some e => by_cases hc : (isBetween s.links id && s.cfg.fixMid) = true <;> simp [removeEntry, h, hc, removeEdges]
+
+theorem removeEntry_ghostBad (s : Pool) (id : Nat) (e : Entry) (h : getEntry s id = some e) :
+    (removeEntry s id).1.ghostBad = (s.ghostBad || isBetween s.links id) := by
+  by_cases hc : (isBetween s.links id && s.cfg.fixMid) = true <;> simp [removeEntry, h, hc, removeEdges]
+
+theorem removeEntry_links (s : Pool) (id : Nat) (e : Entry) (h : getEntry s id = some e) :
+    (removeEntry s id).1.links = removeEntryLinks s.links id := by
+  by_cases hc : (isBetween s.links id && s.cfg.fixMid) = true <;> simp [removeEntry, h, hc, removeEdges]
+
+/-- the entries after `remove_entry` when the entry was not between ancestors and descendants -/
+theorem removeEntry_entries_plain (s : Pool) (id : Nat) (e : Entry) (h : getEntry s id = some e)
+    (hb : isBetween s.links id = false) :
+    (removeEntry s id).1.entries = modEntries (calcDesc s.links id) (subAnc e.tx.w)
+      (modEntries (calcAnc s.links id) (subDesc e.tx.w) (s.entries.filter (·.tx.id ≠ id))) := by
+  simp [removeEntry, h, hb, removeEdges]
 
 end CkbVerif.Pool
